@@ -262,6 +262,10 @@ func (e *Exec) scanCallMods(fn *ssa.Function, c *ssa.CallCommon, ms *modSet, see
 			return
 		}
 	}
+	if fnKey(callee) == "fmt.Fprint" {
+		ms.comps["G.ghost_nwrites"] = arraySort(SInt, SInt)
+		return
+	}
 	if e.isIgnoredExt(callee) || e.isPureExtBuiltin(callee) {
 		return
 	}
@@ -271,7 +275,7 @@ func (e *Exec) scanCallMods(fn *ssa.Function, c *ssa.CallCommon, ms *modSet, see
 
 func isIntrinsic(nm string) bool {
 	switch nm {
-	case "specAssert", "specAssume", "vcForall", "vcExists", "vcTrigger1", "vcTrigger2", "vcTrigger3", "vcOldBegin", "vcOld", "vcMod1", "vcModElems", "vcModMap", "vcFresh", "vcByteStr", "vcModGhost", "vcSameSlice":
+	case "specAssert", "specAssume", "vcForall", "vcExists", "vcTrigger1", "vcTrigger2", "vcTrigger3", "vcOldBegin", "vcOld", "vcMod1", "vcModElems", "vcModMap", "vcFresh", "vcByteStr", "vcModGhost", "vcSameSlice", "vcElemsOf", "vcOff", "vcSeqAt", "vcIte":
 		return true
 	}
 	return false
@@ -430,7 +434,7 @@ func (e *Exec) loopHead(fr *frame, st *State, li *loopInfo, c *Contract, setVari
 	st.alloc = na
 	var variants []Term
 	for _, cl := range clauses {
-		if cl.GenFn == "" {
+		if cl.GenFn == "" || cl.Kind == "after" {
 			continue
 		}
 		args, ok := e.clauseArgs(fr, st, cl, li)
@@ -443,7 +447,7 @@ func (e *Exec) loopHead(fr *frame, st *State, li *loopInfo, c *Contract, setVari
 		}
 		if cl.Kind == "invariant" {
 			e.assume(st, g)
-		} else {
+		} else if cl.Kind == "decreases" {
 			variants = append(variants, e.smt.define("variant", g))
 		}
 	}
@@ -480,7 +484,7 @@ func (e *Exec) backEdge(fr *frame, st *State, li *loopInfo, c *Contract, variant
 	}
 	vi := 0
 	for i, cl := range clauses {
-		if cl.GenFn == "" {
+		if cl.GenFn == "" || cl.Kind == "after" {
 			continue
 		}
 		args, ok := e.clauseArgs(fr, st, cl, li)
@@ -493,7 +497,7 @@ func (e *Exec) backEdge(fr *frame, st *State, li *loopInfo, c *Contract, variant
 		}
 		if cl.Kind == "invariant" {
 			e.oblige(st, "inv.preserve", fmt.Sprintf("inv.preserve.%d.%s", li.ord, clauseName(cl, i)), g, where)
-		} else if vi < len(variants) {
+		} else if cl.Kind == "decreases" && vi < len(variants) {
 			v0 := variants[vi]
 			vi++
 			e.oblige(st, "decreases", fmt.Sprintf("decreases.%d", li.ord), tAnd(tLe(tInt(0), v0), tLt(g, v0)), where)
@@ -554,4 +558,22 @@ func (e *Exec) ghostSortOf(name string) string {
 	}
 	e.unsupported("ghost function %s is not declared", name)
 	return SInt
+}
+
+// loopExit checks the `after` clauses of a loop on one of its exit edges.
+func (e *Exec) loopExit(fr *frame, st *State, li *loopInfo, c *Contract) {
+	for i, cl := range e.loopClauses(c, li) {
+		if cl.Kind != "after" || cl.GenFn == "" {
+			continue
+		}
+		args, ok := e.clauseArgs(fr, st, cl, li)
+		if !ok {
+			continue
+		}
+		g, ok := e.evalSpec(st, c.PkgPath, cl.GenFn, args, fr.entryState)
+		if ok {
+			e.oblige(st, "loop.after", fmt.Sprintf("loop.after.%d.%s", li.ord, clauseName(cl, i)), g, fmt.Sprintf("exit of loop %d of %s", li.ord, fr.fn.Name()))
+			e.assume(st, g)
+		}
+	}
 }
